@@ -68,6 +68,12 @@ func (m DistributedExecutionOptimizer) Optimize(plan parser.Expr) parser.Expr {
 			return true
 		}
 
+		// An expression that selects nothing has nothing to distribute: each
+		// engine would return the same value, and the copies would collide.
+		if !hasSelector(*current) {
+			return true
+		}
+
 		// If the current node is an aggregation, distribute the operation and
 		// stop the traversal.
 		if aggr, ok := (*current).(*parser.AggregateExpr); ok {
@@ -110,6 +116,18 @@ func (m DistributedExecutionOptimizer) makeSubQueries(current *parser.Expr, engi
 		}
 	}
 	return remoteQueries
+}
+
+func hasSelector(expr parser.Expr) bool {
+	found := false
+	parser.Inspect(expr, func(node parser.Node, _ []parser.Node) error {
+		switch node.(type) {
+		case *parser.VectorSelector, *parser.MatrixSelector:
+			found = true
+		}
+		return nil
+	})
+	return found
 }
 
 func isDistributive(expr *parser.Expr) bool {
